@@ -24,6 +24,11 @@ class RayGenerator:
         Returns:
             RealRays: RealRays object containing the generated rays.
         """
+        # np.full_like(Px, value) below inherits the dtype of Px: integer
+        # pupil coordinates would truncate EPL, the launch plane and the
+        # object point to whole numbers
+        Px = np.asarray(Px, dtype=float)
+        Py = np.asarray(Py, dtype=float)
         vx, vy = 1 - np.array(self.optic.fields.get_vig_factor(Hx, Hy))
         x0, y0, z0 = self._get_ray_origins(Hx, Hy, Px, Py, vx, vy)
 
@@ -108,6 +113,9 @@ class RayGenerator:
                                  'object at infinity.')
             if self.optic.obj_space_telecentric:
                 raise ValueError('Object space cannot be telecentric for an '
+                                 'object at infinity.')
+            if self.optic.aperture.ap_type == 'objectNA':
+                raise ValueError('Aperture type cannot be "objectNA" for an '
                                  'object at infinity.')
             EPL = self.optic.paraxial.EPL()
             EPD = self.optic.paraxial.EPD()
